@@ -55,6 +55,14 @@ def run_case(case):
     q1, k1 = gen.make_source(rng, ny, nx)
     q2, k2 = gen.make_source(rng, ny, nx)
     a, b = coef(), coef()
+    if case["idx"] % 7 == 3:
+        # one operand exactly uniform (the same non-zero value in every cell)
+        q2, k2 = np.full((ny, nx), float(rng.choice([-1, 1]) * 10 ** rng.uniform(-2, 2))), "uniform"
+    elif case["idx"] % 7 == 5:
+        # two whole-number fields whose combination is exactly uniform although neither operand is
+        q1, k1 = rng.integers(-4, 9, size=(ny, nx)).astype(float), "whole_numbers"
+        q2, k2 = 5.0 - q1, "complement_to_uniform"
+        a = b = float(2.0 ** int(rng.integers(-3, 4)))
     c1, c2 = [float(rng.choice([0.0, rng.choice([-1, 1]) * 10 ** rng.uniform(-2, 3)])) for _ in range(2)]
     p1, f1 = run(q1, c1)
     p2, f2 = run(q2, c2)
